@@ -1409,6 +1409,11 @@ class IndexGitShaMap(GitShaMap):
         """
         if self._builder is None:
             raise bzr_errors.BzrError("builder not open")
+        if self._builder.key_count() == 0:
+            # Nothing new: do not write an (empty) index file.
+            self._builder = None
+            self._name = None
+            return
         stream = self._builder.finish()
         name = self._name.hexdigest() + ".rix"
         size = self._transport.put_file(name, stream)
@@ -1508,14 +1513,17 @@ class IndexGitShaMap(GitShaMap):
             type_data: Type-specific data tuple.
         """
         if hexsha is not None:
-            self._name.update(hexsha)
             if type == b"commit":
                 td = (type_data[0], type_data[1])
                 with contextlib.suppress(KeyError):
                     td += (type_data[2]["testament3-sha1"],)
             else:
                 td = type_data
-            self._add_node((b"git", hexsha, b"X"), b" ".join((type,) + td))
+            if not self._add_node((b"git", hexsha, b"X"), b" ".join((type,) + td)):
+                # Only SHAs that are really written go into the file name:
+                # re-adding known objects must not reproduce the name of
+                # the index file that already holds them.
+                self._name.update(hexsha)
         else:
             # This object is not represented in Git - perhaps an empty
             # directory?
